@@ -592,7 +592,39 @@ fn run_case(case: &str) -> (String, String, String) {
     }
 }
 
+/// Watchdog: the real code is called synchronously, so an endless loop in it (e.g. a pending flag
+/// that is never cleared) cannot be interrupted from inside.  A side thread notices that the case
+/// counter has not moved for `LIMIT_S` seconds, reports the current case as `TIMEOUT` and ends the run.
+static CURRENT: std::sync::Mutex<(u64, String)> = std::sync::Mutex::new((0, String::new()));
+const LIMIT_S: u64 = 30;
+
+fn start_watchdog() {
+    std::thread::spawn(|| {
+        let mut last = (0u64, 0u64); // (counter, seconds it has been seen)
+        loop {
+            std::thread::sleep(std::time::Duration::from_secs(1));
+            let (n, case) = CURRENT.lock().map(|g| g.clone()).unwrap_or_default();
+            if n == last.0 && !case.is_empty() {
+                last.1 += 1;
+                if last.1 >= LIMIT_S {
+                    use std::io::Write as _;
+                    let mut o = std::io::stdout().lock();
+                    let _ = writeln!(o, "{case}\tTIMEOUT\tFAIL:timeout");
+                    let _ = o.flush();
+                    std::process::exit(0);
+                }
+            } else {
+                last = (n, 0);
+            }
+        }
+    });
+}
+
 fn run_guarded(case: &str) -> (String, String, String) {
+    if let Ok(mut g) = CURRENT.lock() {
+        g.0 += 1;
+        g.1 = case.to_string();
+    }
     let mut out = (String::new(), String::new(), String::new());
     let o = guarded(|| {
         out = run_case(case);
@@ -668,6 +700,7 @@ fn random_op(r: &mut Rng, sigs: &[&str]) -> String {
 
 fn main() {
     quiet_panics();
+    start_watchdog();
     let o = Opts::from_args();
     let (fixed, only) = o.fixed_cases();
     for c in &fixed {
